@@ -17,11 +17,16 @@ def run(ctx, args):
     quick = ctx.tier == "quick"
     rng = random.Random(ctx.seed)
     d = ctx.specdir("Custodian")
-    ctx.tlc_mc(d, "MC_Custodian.tla", "MC_Custodian_2.cfg", workers=4, timeout=900)
-    ctx.tlc_mc(d, "MC_Custodian.tla", "MC_Custodian_witness.cfg", workers=1, timeout=300,
-               expect_violation="WitnessAccept", count=False)
+    from concurrent.futures import ThreadPoolExecutor
+    with ThreadPoolExecutor(max_workers=3) as ex:
+        f1 = ex.submit(lambda: ctx.tlc_mc(d, "MC_Custodian.tla", "MC_Custodian_2.cfg", workers=4, timeout=900))
+        f2 = ex.submit(lambda: ctx.tlc_mc(d, "MC_Custodian.tla", "MC_Custodian_witness.cfg", workers=1, timeout=300,
+                                          expect_violation="WitnessAccept", count=False))
+        f3 = ex.submit(lambda: ctx.tlc_edges(d, "MC_Custodian.tla", "Gen_Custodian_1.cfg" if quick else "Gen_Custodian_2.cfg",
+                                             tag="CASE ", timeout=1200))
+        f1.result(); f2.result()
+        raw = f3.result()
     ctx.exhaustive = True
-    raw = ctx.tlc_edges(d, "MC_Custodian.tla", "Gen_Custodian_1.cfg" if quick else "Gen_Custodian_2.cfg", tag="CASE ", timeout=1200)
     seen, cases = set(), []
     for k in raw:
         key = json.dumps(k["c"], sort_keys=True)
